@@ -29,10 +29,7 @@ def sh(cmd, cwd=None, env=None, timeout=3000):
 
 def run_demo(src, binary):
     if os.path.exists(os.path.join(src, "demo.sh")):
-        rc, out = sh(["sh", os.path.join(src, "demo.sh"), binary], timeout=900)
-        if rc == 127 or "not found" in out[:200]:
-            rc, out = sh(["bash", os.path.join(src, "demo.sh"), binary], timeout=900)
-        return rc, out
+        return sh(["bash", os.path.join(src, "demo.sh"), binary], timeout=900)
     if os.path.exists(os.path.join(src, "demo.py")):
         return sh([sys.executable, os.path.join(src, "demo.py"), binary], timeout=900)
     if os.path.exists(os.path.join(src, "run_demo_test.sh")):
